@@ -14,7 +14,7 @@ def run(tier, seed, replay=None):
     rep.add_tlc(leg)
     # impl -> spec over the entire domain (both tiers: the sweep is cheap)
     trace = os.path.join(wd, "trace.ndjson")
-    info = harness(["c17", "--out", trace], timeout=600)
+    info = harness(["c17", "--out", trace, "--seed", seed, "--random", 100000 if tier == "thorough" else 20000], timeout=600)
     n = info["events"]
     events = read_trace(trace)
     bad, st, tr, matched = validate_trace("HijriTrace", "HijriTrace.cfg", trace, n, heap="8g", timeout=1500)
@@ -32,6 +32,7 @@ def run(tier, seed, replay=None):
         rep.sample(events[min(i, len(events) - 1)])
     rep.extra["dates_swept"] = info["dates"]
     rep.extra["panics_observed"] = info["panics"]
+    rep.extra["random_order_conversions"] = info.get("random_order")
     rep.extra["rejected_events"] = len(bad)
     rep.extra["model_window_years"] = "62 before/after the epoch" if tier == "thorough" else "12 before/after the epoch"
     rep.assumptions = ["chrono's proleptic Gregorian calendar (num_days_from_ce, weekday) - cross-checked per event against Calendar.tla's RD()",
